@@ -30,6 +30,11 @@ func init() {
 				Doc: &UDoc{Msg: "m", Kind: "k1", Fields: map[string]int{"n": 7, "s": 1}}}); ok {
 				out = append(out, cs)
 			}
+			for _, c := range umCorpusExtra() {
+				if cs, ok := runC20Restored(c); ok {
+					out = append(out, cs)
+				}
+			}
 			nr := n / 2
 			for i := 0; i < nr*3 && nr > 0; i++ {
 				c := UCase{Cfg: genUCfg(r), Doc: genUDoc(r, 0)}
